@@ -215,11 +215,51 @@ func evalOp(c *core.Ctx, fn *ssa.Function, params []*ir.Term, mem *ir.State, key
 	if len(an.Problems) > 0 {
 		return nil
 	}
-	ps := an.AllPaths()
+	var ps []*ir.Path
+	for _, p := range an.AllPaths() {
+		if p.Exit == ir.ExitPanic && emptinessGuard(p) {
+			continue // Head / Tail of the empty sequence: outside the laws (it failed before, by index or nil dereference)
+		}
+		ps = append(ps, p)
+	}
 	if len(ps) != 1 || ps[0].Exit != ir.ExitReturn || len(ps[0].Results) != 1 {
 		return nil
 	}
 	return &opResult{fn: fn, res: ps[0].Results[0], end: ps[0].End, p: ps[0]}
+}
+
+// emptinessGuard: the path has found its sequence empty - a length equal to 0 (or below 1), or the cell chain nil -
+// and does nothing but panic: no store, no call other than message formatting.
+func emptinessGuard(p *ir.Path) bool {
+	if len(nonLocalStores(p)) != 0 {
+		return false
+	}
+	found := false
+	for _, b := range p.Events(ir.KBranch) {
+		at := b.Atom
+		if at.Op != "bin" || len(at.Args) != 2 || !b.Pol {
+			continue
+		}
+		isLen := func(t *ir.Term) bool {
+			return t.Op == "len" || (t.Op == "field" || t.Op == "load") && strings.Contains(strings.ToLower(t.Key()), "len")
+		}
+		switch at.Aux {
+		case "==":
+			for j := 0; j < 2; j++ {
+				if k, isK := at.Args[j].IntConst(); isK && k == 0 && isLen(at.Args[1-j]) {
+					found = true
+				}
+				if at.Args[j].IsNil() && !at.Args[1-j].IsConst() {
+					found = true
+				}
+			}
+		case "<":
+			if k, isK := at.Args[1].IntConst(); isK && k == 1 && isLen(at.Args[0]) {
+				found = true
+			}
+		}
+	}
+	return found
 }
 
 // evalOpCases: like evalOp, for an operation whose body splits into cases (an early return for the empty
@@ -287,7 +327,7 @@ func runC19(c *core.Ctx) {
 					}
 					ok, why = false, "stores into "+short(st.A[0])+": the sequence given is modified"
 				}
-				if p.Exit == ir.ExitPanic {
+				if p.Exit == ir.ExitPanic && !((m == "Head" || m == "Tail") && emptinessGuard(p)) {
 					ok, why = false, "explicit panic"
 				}
 			}
